@@ -271,18 +271,17 @@ func checkC09(e *Engine, r *Report) {
 		return len(a) == 2 && isConstEq(a[1], exited)
 	}
 	if stop := r.Anchor(pkgRM, "nriPlugin.StopContainer"); stop != nil {
-		lookup := e.objs(pkgCA, "Cache.LookupContainer")
-		lc := firstCallOfObj(stop, lookup)
-		if lc != nil {
-			r.MustPass("R1:rm-stop->release", "R1 release pairing", "StopContainer releases the container's resources on every successful path for a known container", stop, lc.(ssa.Instruction),
-				e.maySucceed, func(in ssa.Instruction) bool { return isCallOfObj(in, polRelease) }, okOf(lc.Value(), true))
-			r.MustPass("R1:rm-stop->exited", "R1 release pairing", "StopContainer marks the container Exited on every successful path", stop, lc.(ssa.Instruction),
-				e.maySucceed, isExitedUpdate, okOf(lc.Value(), true))
+		lcAt, _, lcKnown := e.eventContainer(stop)
+		if lcAt != nil {
+			r.MustPass("R1:rm-stop->release", "R1 release pairing", "StopContainer releases the container's resources on every successful path for a known container", stop, lcAt,
+				e.maySucceed, func(in ssa.Instruction) bool { return isCallOfObj(in, polRelease) }, lcKnown)
+			r.MustPass("R1:rm-stop->exited", "R1 release pairing", "StopContainer marks the container Exited on every successful path", stop, lcAt,
+				e.maySucceed, isExitedUpdate, lcKnown)
 			// release precedes the state change
 			p := FindPath(PathQuery{Fn: stop, Block: func(in ssa.Instruction) bool { return isCallOfObj(in, polRelease) }, Target: isExitedUpdate})
 			r.Check("R1:rm-stop-release-before-exited", "R1 release pairing", "resources are released before the container is marked Exited", e.Pos(stop.Pos()), stop, p == nil, e.pathString(p), true)
 		} else {
-			r.Undecided("R1:rm-stop", "R1 release pairing", "StopContainer looks the container up", e.Pos(stop.Pos()), stop, "no LookupContainer call")
+			r.Undecided("R1:rm-stop", "R1 release pairing", "StopContainer looks the container up", e.Pos(stop.Pos()), stop, "no LookupContainer call (directly or through a lookup helper)")
 		}
 	}
 	if create := r.Anchor(pkgRM, "nriPlugin.CreateContainer"); create != nil {
